@@ -3,6 +3,7 @@ runner Ops/Multi.v; closed-world theorems over the timer-firing simulator
 Ops/TimedSim.v (Props/C17.v); tie: K2 multi-source port-level replay with the
 proxy scheduler (harness/k2m.py, harness/timed_table.py); oracle: below, a
 direct reading of the property statement on the implementation's log."""
+import timed_extra as te
 import timed_table as tt
 from timed_table import view, common_timed, elems, terminal, src_view
 from k2 import err_id
@@ -270,6 +271,9 @@ def oracle(name, inst, res):
     return o_timeout_with_mapper(inst, res, v)
 
 
+FAMILY_COUNTS = {"tom_kinds": (300, 4000), "fb_timeout": (200, 3000), "cold_sources": (250, 3000)}
+
+
 def run(chk):
     BOUNDARY_FATE.clear()
     ok = chk.build_and_prove()
@@ -277,6 +281,7 @@ def run(chk):
     tt.run_timed(chk, "C17", NAMES, oracle, ncase=None if ok else 2000)
     tt.closed_world(chk, "C17", NAMES)
     chk.cov["boundary_fates_observed"] = {k[0]: sorted(s) for k, s in BOUNDARY_FATE.items()}
+    te.run_families(chk, "C17", FAMILY_COUNTS)
     chk.cov["rule"] = ("per operator: seeded instances (durations / due times 0/5/10/20 ms as float seconds, timedelta "
                        "or absolute datetime incl. one in the past; timeout with and without fallback; scheduler "
                        "passed to the operator or to subscribe; mapper tables indexed by invocation, 12% raising) x "
@@ -284,8 +289,20 @@ def run(chk):
                        "elements placed before / at / after every boundary: absolute window edges +-5 ms, gaps and "
                        "distances to the completion of due-5 / due / due+5, bursts at one instant so that boundary "
                        "elements occur with and without a same-instant companion, values incl. 0 and None, "
-                       "completion/error/none, 10% non-conforming tails, 15% with a dispose instant); non-trivial = "
-                       "distinct (machine, delivered input sequence) with >= 2 emissions and the oracle satisfied")
+                       "completion/error/none, 10% non-conforming tails, 15% with a dispose instant; the measured "
+                       "subscription happens at proxy-clock reading 0/35/200/1000 ms -- absolute due times are offsets "
+                       "from it -- and in 35% of the cases is the SECOND subscription of the same observable object, "
+                       "after a warm-up subscription with its own timeline, fired timers and dispose); non-trivial = "
+                       "distinct (machine, delivered input sequence) with >= 2 emissions and the oracle satisfied.  "
+                       "Oracle-only families (cov.oracle_only_families; non-trivial = distinct parameter sets with >= 2 "
+                       "notifications): tom_kinds = timeout_with_mapper whose first / mapper-made timeout observables "
+                       "fire inside subscribe(), are hand-held, or are real timer(x)/empty()/of() under TestScheduler, "
+                       "fallback absent / of(...) / hand-held; fb_timeout = timeout(d) under TestScheduler with a "
+                       "subscriber pushing back into the source from inside on_next; cold_sources = the window "
+                       "operators and timeout over a cold source that delivers everything at the subscription instant "
+                       "(inside subscribe() or through the operator's scheduler: of(), throw()), windows 0 / 5 / 10 and "
+                       "absolute times incl. one in the past -- at the boundary every prefix / suffix / all-or-nothing "
+                       "outcome is accepted; same-instant orders the text leaves open are skipped as ties (counted)")
     chk.cov["operators_modelled"] = NAMES
     return chk.finish(trusted_extra=[
         "multi-source K2 driver harness/k2m.py with its proxy scheduler (integer-millisecond virtual clock, records "
@@ -296,9 +313,15 @@ def run(chk):
         "closed-world comparison (harness/timed_table.py: closed_world): hand-made hot sources whose notifications "
         "are queued before the subscription, under reactivex.testing.TestScheduler and HistoricalScheduler",
         "closed-world theorems are about Ops/TimedSim.v: every requested timer fires exactly at request time + "
-        "clamped delay, source events first at equal instants (the proxy scheduler's policy)"],
+        "clamped delay, source events first at equal instants (the proxy scheduler's policy)",
+        "harness/timed_table.py run_case/warm_up: the warm-up subscription and the clock offset are applied inside "
+        "the build callback handed to k2m.run_multi (the harness state is wiped as k2m does after its own warm-up)",
+        "harness/timed_extra.py: oracle-only families with their own hand-made hot source, TestScheduler driver and "
+        "references written from the property text (no Coq model behind them)"],
         assumptions=["timelines are in integer milliseconds; datetime/timedelta arithmetic is exact on them"])
 
 
 def replay(chk, path):
+    if te.is_family_replay(path):
+        return te.replay_family("C17", path)
     return tt.replay_cases("C17", oracle, path, reset=BOUNDARY_FATE.clear)
